@@ -2,6 +2,8 @@ import HpxVerif.Model.C2V
 
 import HpxVerif.Lemmas.C2VReal
 
+set_option autoImplicit false   -- an unknown identifier in a statement is an error, never a new variable
+
 /-!
 # C16 — cell-size helper bounds really are bounds
 
